@@ -406,14 +406,22 @@ def c06_scaling(rng, tier):
     a = np.radians(flow["alpha"]); b = np.radians(flow["beta"])
     u = np.array([np.cos(a) * np.cos(b), -np.sin(b), np.sin(a) * np.cos(b)])
     lift_dir = np.array([-np.sin(a), 0.0, np.cos(a)])
-    for s in surfaces:
-        F = o0[s["name"]]["sec_forces"].sum(axis=(0, 1)) * (2 if s["symmetry"] else 1)
-        if s["symmetry"]:
-            F[1] = 0.0
-        L, D = o0[s["name"]]["L"], o0[s["name"]]["D"]
-        sc = max(abs(L), abs(D))
-        if abs(D - F.dot(u)) > 1e-10 * sc or abs(L - F.dot(lift_dir)) > 1e-10 * sc:
-            out.append(_fail("L, D are not the components of the summed panel forces normal to / along the free stream", [L, D], [F.dot(lift_dir), F.dot(u)], surface=s["name"], **case))
+    runs = [(o0, flow["beta"])]
+    if anysym:
+        # the statement is literal: the summed panel forces of the model (the half model's, doubled), also when a symmetric model is
+        # run with sideslip (the side-force term then does not vanish)
+        fb = dict(flow); fb["beta"] = float(rng.uniform(2, 10) * rng.choice([-1, 1]))
+        runs.append((pipelines.aero_outputs(pipelines.run_aero_point(surfaces, fb), surfaces), fb["beta"]))
+    for (o, beta) in runs:
+        b = np.radians(beta)
+        u = np.array([np.cos(a) * np.cos(b), -np.sin(b), np.sin(a) * np.cos(b)])
+        for s in surfaces:
+            F = o[s["name"]]["sec_forces"].sum(axis=(0, 1)) * (2 if s["symmetry"] else 1)
+            L, D = o[s["name"]]["L"], o[s["name"]]["D"]
+            sc = max(abs(L), abs(D))
+            if abs(D - F.dot(u)) > 1e-10 * sc or abs(L - F.dot(lift_dir)) > 1e-10 * sc:
+                out.append(_fail("L, D are not the components of the summed panel forces normal to / along the free stream", [L, D],
+                                 [F.dot(lift_dir), F.dot(u)], surface=s["name"], **dict(case, beta=beta)))
     # area weighting
     S = np.array([o0[s["name"]]["S_ref"] for s in surfaces])
     for q in ("CL", "CD"):
